@@ -30,6 +30,7 @@ def run(fw):
             if heavy and fw.tier == 'quick':
                 continue
             jobs.append((r, nm, sh, False, heavy))
+    jobs.append(('h_unowned', 'units not owned by a model', (4, 3, 3, 3), False, False))
     if not listed:
         for nm, sh in CYCLIC.items():
             for r in ROOTS[:3]:
@@ -43,7 +44,7 @@ def run(fw):
         m = fw.build_model(name, H, [root], defines=defs)
         us = fw.unwindset(m, root, vfw.std_rules(string=20))
         lab = '%s[%s]' % (root, nm)
-        r = fw.cbmc(m, root, unwind=8, unwindset=us, timeout=1500 if not heavy else 3000, label=lab, symbolic='exponents and multipliers of the 4 unit children')
+        r = fw.cbmc(m, root, unwind=8, unwindset=us, timeout=1500, label=lab, symbolic='exponents and multipliers of the 4 unit children')
         if r['status'] != 'SUCCESS':
             fw.log(lab, r['status'], r['wall'], [(f['msg'], f['inputs']) for f in r['failed']][:3])
         fw.handle(r, H, defs, stack_mb=64, crash_ok_msgs=('recursion unwinding assertion',), best_effort=heavy)
